@@ -150,7 +150,9 @@ def run(ctx) -> None:
     ctx.floor("C06.R2-errors-carry-locations", n_sites, 30, "error collection sites in the DSL compiler")
     # the wrapping loop of ScopeStack.enter still exists
     ent = d.func("ScopeStack.enter")
-    ok = any(isinstance(n, ast.For) and isinstance(n.iter, ast.Name) and n.iter.id == "errors" and "isinstance" in source.src(n) and "DSLInvalidFieldError" in source.src(n)
+    err_lists = {c.func.value.id for c in source.calls_in(ent) if last_attr(c) == "append" and isinstance(c.func.value, ast.Name)
+                 and any(isinstance(v, ast.List) and not v.elts for v in match.assigned_value(ent, c.func.value.id))}
+    ok = any(isinstance(n, ast.For) and isinstance(n.iter, ast.Name) and n.iter.id in err_lists and "isinstance" in source.src(n) and "DSLInvalidFieldError" in source.src(n)
              and "location" in source.src(n) for n in source.walk_own(ent))
     ctx.ob("C06.R2-errors-carry-locations", ent, ok, "ScopeStack.enter wraps plain errors with the scope's location" if ok else
            "ScopeStack.enter no longer wraps its plain errors into DSLInvalidFieldError(location=...)", construct="wrapping loop in ScopeStack.enter")
@@ -170,13 +172,31 @@ def run(ctx) -> None:
                "%s substitutes by content (%s): a parameter value that contains the text of another reference is rewritten twice" % (q, short(sites[0].call, 60)),
                construct="%s has no content-based substitution" % q)
     rm = d.func("_replace_many_parameter_references")
+    fi = [n for n in source.walk_own(rm) if isinstance(n, ast.For) and isinstance(n.iter, ast.Call) and last_attr(n.iter) == "finditer"
+          and isinstance(n.target, ast.Name)]
+    ctx.require(bool(fi), "anchor missing: for <m> in <pattern>.finditer(..) in _replace_many_parameter_references")
+    MATCH = fi[0].target.id
+    pos_kw = [k.value.id for k in fi[0].iter.keywords if k.arg == "pos" and isinstance(k.value, ast.Name)]
+    START = pos_kw[0] if pos_kw else "start"
     spans = [n for n in source.walk_own(rm) if isinstance(n, ast.Assign) and isinstance(n.value, ast.BinOp)
-             and "match.start()" in source.src(n.value) and "match.end()" in source.src(n.value)]
+             and MATCH + ".start()" in source.src(n.value) and MATCH + ".end()" in source.src(n.value)]
     ok = bool(spans)
     ctx.ob("C06.R3-span-substitution", spans[0] if spans else rm, ok, "substitution rebuilds the string around the match span" if ok else
            "_replace_many_parameter_references no longer substitutes by match span")
-    restart = [n for n in source.walk_own(rm) if isinstance(n, ast.Assign) and isinstance(n.targets[0], ast.Name) and n.targets[0].id == "start"
-               and "len(fillin)" in source.src(n.value)]
+    # the inserted text: the middle operand of the span rebuild  what[:m.start()] + <inserted> + what[m.end():]
+    inserted = None
+    if spans:
+        parts = []
+        def flat(e):
+            if isinstance(e, ast.BinOp) and isinstance(e.op, ast.Add):
+                flat(e.left); flat(e.right)
+            else:
+                parts.append(e)
+        flat(spans[0].value)
+        mid = [p_ for p_ in parts if isinstance(p_, ast.Name)]
+        inserted = mid[0].id if mid else None
+    restart = [n for n in source.walk_own(rm) if isinstance(n, ast.Assign) and isinstance(n.targets[0], ast.Name) and n.targets[0].id == START
+               and inserted is not None and "len(%s)" % inserted in source.src(n.value)]
     ctx.ob("C06.R3-span-substitution", restart[0] if restart else rm, bool(restart), "the inserted text is skipped (not re-scanned in the same scope)" if restart else
            "the scan position no longer skips the inserted text: a value containing '%(x)s' is substituted again in the wrong scope")
     unk = [n for n in source.walk_own(rm) if isinstance(n, ast.Raise) and n.exc is not None and "unknown parameter" in source.src(n.exc)]
@@ -263,16 +283,27 @@ def run(ctx) -> None:
            "names are numbered while iterating an unordered collection", construct="for ... in %s" % short(it, 50))
     # uniqueness: the generated name (or its (stage, name) pair) is tested for membership in a collection of names already taken
     # before it is stored, and that collection grows with every stored name
-    stores = [n for n in ast.walk(lp) if isinstance(n, ast.Assign) and isinstance(n.targets[0], ast.Subscript) and dotted(n.targets[0].value) == "uid_to_name"]
+    # the table of generated names: the dictionary that the loop stores (stage, name) pairs into
+    stores = [n for n in ast.walk(lp) if isinstance(n, ast.Assign) and isinstance(n.targets[0], ast.Subscript) and isinstance(n.targets[0].value, ast.Name)
+              and isinstance(n.value, (ast.Tuple, ast.Name)) and not (isinstance(n.value, ast.Constant))
+              and any(isinstance(a, (ast.For,)) and a is lp for a in source.ancestors(n))
+              and not any(isinstance(a, ast.While) for a in source.ancestors(n) if a is not lp and any(a is x for x in ast.walk(lp)))]
     member_tests = [n for n in ast.walk(lp) if isinstance(n, ast.Compare) and isinstance(n.ops[0], (ast.In, ast.NotIn))
-                    and isinstance(n.comparators[0], ast.Name) and n.comparators[0].id not in ("component_names",)]
+                    and isinstance(n.comparators[0], ast.Name)]
     grown = set()
     for n in ast.walk(lp):
         if isinstance(n, ast.Call) and last_attr(n) in ("add", "append") and isinstance(n.func.value, ast.Name):
             grown.add(n.func.value.id)
         if isinstance(n, ast.Assign) and isinstance(n.targets[0], ast.Subscript) and isinstance(n.targets[0].value, ast.Name):
             grown.add(n.targets[0].value.id)
-    checks = [t for t in member_tests if t.comparators[0].id in grown and any(isinstance(a, (ast.While, ast.If)) for a in source.ancestors(t))]
+    # the tested value must be the generated identifier itself: the value that is stored in the table of names (or added to
+    # the collection of identifiers already handed out)
+    stored_vals = {source.src(n.value) for n in stores}
+    for n in ast.walk(lp):
+        if isinstance(n, ast.Call) and last_attr(n) in ("add", "append") and n.args and source.src(n.args[0]) in stored_vals:
+            stored_vals.add(source.src(n.args[0]))
+    checks = [t for t in member_tests if t.comparators[0].id in grown and any(isinstance(a, (ast.While, ast.If)) for a in source.ancestors(t))
+              and source.src(t.left) in stored_vals]
     ok = bool(stores) and bool(checks)
     ctx.ob("C06.R4-unique-names", lp, ok,
            "every generated component name is checked against the names already taken before it is used" if ok else
